@@ -32,11 +32,31 @@ func (e *Engine) modeOf(ct *Contract) Mode {
 
 func contractUsesGhost(ct *Contract) bool {
 	for _, cl := range ct.Clauses {
-		if cl.Kind == "charges" || strings.Contains(cl.Text, "ghost(") {
+		if cl.Kind == "charges" || cl.Kind == "allocs" || strings.Contains(cl.Text, "ghost(") {
 			return true
 		}
 	}
 	return false
+}
+
+// allocSlack: `allocs charged [slack N]` turns every allocation of a
+// program-chosen size in the function into an obligation "the memory charged so
+// far in this call (ghost mem) plus N bytes covers it".
+func allocSlack(ct *Contract) (int64, bool) {
+	if ct == nil {
+		return 0, false
+	}
+	for _, cl := range ct.byKind("allocs") {
+		f := strings.Fields(cl.Text)
+		if len(f) >= 1 && f[0] == "charged" {
+			var n int64
+			if len(f) >= 3 && f[1] == "slack" {
+				fmt.Sscanf(f[2], "%d", &n)
+			}
+			return n, true
+		}
+	}
+	return 0, false
 }
 
 // verifyFunc generates all obligations of one function under contract.
